@@ -323,6 +323,22 @@ class Prop(PropBase):
         'shlex.split is modelled for command lines without quotes/escapes only (others: verdict 2); '
         'captured output restricted to ASCII (decode = identity)',
         'stdout/stderr file redirection, cwd, encoding and the shell override key are not modelled',
+        'Tie B (tools/py2coq_c17.py -> Gen/GenC17.v, proved equal to the model in Proofs/GenC17Proofs.v): '
+        'translated from the current source are subproc.Command._run/run, SubprocessResult.check_returncode, '
+        'CmdStep.run_step, aio Command._spawn/_run/_parse_result/parse_results, aio Commands.run, '
+        'AsyncCmdStep.run_step. The translator DROPS docstrings, asserts, logger calls, ifs that only log, '
+        'exception messages, and the cwd= / encoding= / stdout= / stderr= keywords of the spawn calls (file '
+        'handles of output_handles() are opaque; for aio they are the PIPE bit, assumed = is_save as '
+        '__init__ sets it); bytes.decode is the identity (ASCII); the final `else: raise TypeError` of the '
+        'exhaustive isinstance chain in _parse_result is dead code',
+        'Tie B signature tables (Python is untyped): Command.cmd is str | list[str]; results / _results are '
+        'lists of SubprocessResult | Exception (| list of those for aio); each Command in self.commands is a '
+        'distinct, freshly constructed object (results == []); Commands.is_save = any Command saves',
+        'Tie B primitives, instantiated in the proofs by Model/Cmd.v py_subprocess_run, py_check_returncode, '
+        'py_create_subprocess, py_communicate (CPython subprocess/asyncio semantics over an OS oracle keyed '
+        'by (argv, shell)), shlex.split = the model\'s shlex_split, config.is_windows = False; '
+        'aio Command.run and Commands._run (the two asyncio.gather calls) are NOT translated: each Command\'s '
+        '_results = its tasks\' results in argument order stays an assumption (checked by Tie A only)',
     ]
 
     # ---- cases
